@@ -312,6 +312,8 @@ package bigbuff
 //@   # workers than wanted) is the one that takes it out of the count, so Call never counts a worker that will not look again
 //@   action mutex
 //@   ensures retired : w.count == old(w.count) - 1 && unchanged(w.queue)
+//@   # queue discipline (no call is starved): a worker takes the OLDEST queued call and leaves the others in their order
+//@   at-call (*sync.Mutex).Unlock#0 fifo : item == old(w.queue[0]) && len(w.queue) == old(len(w.queue)) - 1 && all(i, 0, len(w.queue), w.queue[i] == old(w.queue[i + 1]))
 
 //@ func (*Workers).worker$1
 //@   maypanic
